@@ -494,8 +494,14 @@ def _semantic_calendar(ip, st, y, m, d):
     for t in terms:
         if t is not None:
             leaves_of(t, leaves)
-    for c, _ in st.conds:
-        leaves_of(c, leaves)
+    # conditions that speak about other values only widen the set of valuations when
+    # they are dropped, which is sound for a "every valuation is a real date" argument
+    conds = []
+    for c, t in st.conds:
+        lc = set()
+        leaves_of(c, lc)
+        if lc and lc <= leaves:
+            conds.append((c, t))
     order = sorted(leaves, key=repr)
     doms = []
     size = 1
@@ -508,7 +514,7 @@ def _semantic_calendar(ip, st, y, m, d):
         if size > 400000:
             return False
     try:
-        f = e4.compile_path(st.conds, terms, order)
+        f = e4.compile_path(conds, terms, order)
     except Undecided:
         return False
     n = 0
